@@ -5,7 +5,7 @@ from framework import coq_bs, coq_z, coq_list, coq_opt
 ID = 'C02'
 COQ_IMPORTS = ['G_gff', 'C02_Model']
 GENERATORS = ['gen_gff']
-RULE = ('nine streams: (disp) write_fts / read_fts with fmt in any spelling or taken from the extension (right, wrong-case and unknown extensions, unknown format names, fmt against extension), via string and file, meta._fmt observed; (xsvw) FeatureLists -> TSV/CSV text -> records for any list of column names (subsets, repetitions, defect, foreign metadata columns), keys as list / tuple / one string with arbitrary white space, fourteen separators, ftype naming a column or a literal, via str / file / detection: the written text is compared byte for byte with the model, the records or the KeyError with the model and the oracle; (xsvr) tables written by other programs (columns by name anywhere, contradicting len, negative coordinates, blank lines, empty ranges, unknown strands, missing columns); (seqgff) BioBaskets whose sequences carry features (some without seqid, some naming another or no sequence) '
+RULE = ('nine streams and a relational transport check (the same list through file name, Path, handles, offsets, BytesIO, gzip, archive=, glob, Feature.write, write_fts(): text and features must equal those of the string transport): (disp) write_fts / read_fts with fmt in any spelling or taken from the extension (right, wrong-case and unknown extensions, unknown format names, fmt against extension), via string and file, meta._fmt observed; (xsvw) FeatureLists -> TSV/CSV text -> records for any list of column names (subsets, repetitions, defect, foreign metadata columns), keys as list / tuple / one string with arbitrary white space, fourteen separators, ftype naming a column or a literal, via str / file / detection: the written text is compared byte for byte with the model, the records or the KeyError with the model and the oracle; (xsvr) tables written by other programs (columns by name anywhere, contradicting len, negative coordinates, blank lines, empty ranges, unknown strands, missing columns); (seqgff) BioBaskets whose sequences carry features (some without seqid, some naming another or no sequence) '
         'through write(fmt=gff) / read(fmt=gff or detected); TSV/CSV selections with extra metadata columns named like MMseqs2/BLAST '
         'columns, read back with fmt= and with auto-detection; (hist) histories on the same live FeatureLists / texts: repeated GFF cycles and TSV/CSV writes with different '
         'column selections in any order, in-place edits (aliases, _gff entries, locations) in between, mutation of every returned '
@@ -1875,8 +1875,131 @@ def features(case, got):
     return {'key_in_reserved_set': bool(keys & ATTR_RESERVED), 'kind': case['_k'], 'firstloc_overrides': firstloc}
 
 
+def _transport_checks(rng, tier, cov):
+    """the same FeatureList through every documented transport of write_fts / read_fts: file name, Path, text handle, handle and
+    stream at an offset, BytesIO, gzip, archive=, a glob with one match, Feature.write, the write_fts function, reads with and
+    without fmt - text and features must be those of the plain string transport"""
+    import gzip, pathlib, shutil
+    from sugar import read_fts
+    try:
+        from sugar._io import write_fts
+    except ImportError:                                # a private import path: the function is reached through FeatureList.write anyway
+        write_fts = None
+    n = 0
+    for it in range(8 if tier != 'thorough' else 60):
+        if it % 2:
+            c = gen_obj(rng, True)
+            for i, f in enumerate(c['fts']):
+                if len(f['locs']) > 1 and not (any(k == 'id' for k, _ in f['meta']) or any(k == 'ID' for k, _ in (f['gff'] or []))):
+                    f['meta'].append(['id', [0, 'tr%d' % i]])
+            fmt, kw, rkw, obs = 'gff', {}, {}, obs_fts
+        else:
+            c = gen_xsvw(rng)
+            fmt = c['_fmt']
+            kw = {'keys': list(c['names'])}
+            rkw = {}
+            if c['_sep'] not in ('tab', 'comma') and rng.random() < 0.5:
+                kw['sep'] = rkw['sep'] = SEPS[c['_sep']]
+            obs = lambda x: [_obs_rec(ft) for ft in x]
+        case = {'_k': 'transport', 'fmt': fmt, 'fts': c['fts'], 'kw': {k: v for k, v in kw.items()}}
+        try:
+            fts = build_fts(c['fts'])
+            base = fts.tofmtstr(fmt, **kw)
+            want = obs(read_fts(io.StringIO(base), fmt, **rkw))
+        except Exception:
+            continue                                   # not a list / selection the formats accept: nothing to compare
+        d = tempfile.mkdtemp(prefix='C02-', dir='/tmp')
+        results = {}
+        def rd(name, fn):
+            try:
+                results[name] = obs(fn())
+            except Exception as e:
+                results[name] = 'raised ' + type(e).__name__
+        def wr(name, fn):
+            try:
+                results[name] = fn()
+            except Exception as e:
+                results[name] = 'raised ' + type(e).__name__
+        try:
+            ext = '.' + fmt
+            p1 = os.path.join(d, 'a' + ext)
+            def w_name():
+                fts.write(p1, **kw)
+                return open(p1, newline='').read()
+            wr('write: file name', w_name)
+            def w_path():
+                p = pathlib.Path(d) / ('b' + ext)
+                fts.write(p, **kw)
+                return open(p, newline='').read()
+            wr('write: Path', w_path)
+            def w_func():
+                p = os.path.join(d, 'c.dat')
+                write_fts(fts, p, fmt, **kw)
+                return open(p, newline='').read()
+            if write_fts is not None:
+                wr('write: write_fts(fts, name, fmt)', w_func)
+            def w_handle():
+                p = os.path.join(d, 'd.txt')
+                with open(p, 'w', newline='') as f:
+                    f.write('# prefix\n')
+                    fts.write(f, fmt, **kw)
+                t = open(p, newline='').read()
+                return t[len('# prefix\n'):] if t.startswith('# prefix\n') else t
+            wr('write: text handle at an offset', w_handle)
+            def w_sio():
+                f = io.StringIO()
+                fts.write(f, fmt.upper(), **kw)
+                return f.getvalue()
+            wr('write: StringIO, fmt upper case', w_sio)
+            if len(fts) == 1:
+                wr('write: Feature.write', lambda: fts[0].tofmtstr(fmt, **kw) if hasattr(fts[0], 'tofmtstr') else (lambda f: (fts[0].write(f, fmt, **kw), f.getvalue())[1])(io.StringIO()))
+            with open(p1, 'w', newline='') as f:
+                f.write(base)
+            if fmt == 'gff':
+                rd('read: file name, fmt detected', lambda: read_fts(p1, **rkw))     # detection of tables: the xsvw stream and C03
+            rd('read: file name, fmt given', lambda: read_fts(p1, fmt, **rkw))
+            rd('read: Path', lambda: read_fts(pathlib.Path(p1), fmt, **rkw))
+            def r_handle():
+                with open(p1, newline='') as f:
+                    return read_fts(f, fmt, **rkw)
+            rd('read: text handle', r_handle)
+            def r_offset():
+                f = io.StringIO('junk\nmore junk\n' + base)
+                f.seek(len('junk\nmore junk\n'))
+                return read_fts(f, fmt, **rkw)
+            rd('read: stream at an offset', r_offset)
+            rd('read: BytesIO', lambda: read_fts(io.BytesIO(base.encode()), fmt, **rkw))
+            def r_gz():
+                p = p1 + '.gz'
+                with gzip.open(p, 'wt', newline='') as f:
+                    f.write(base)
+                return read_fts(p, fmt, **rkw)
+            rd('read: gzip file', r_gz)
+            def r_glob():
+                os.makedirs(os.path.join(d, 'g'))
+                shutil.copy(p1, os.path.join(d, 'g', 'only' + ext))
+                return read_fts(os.path.join(d, 'g', '*' + ext), fmt, **rkw)
+            rd('read: glob with one match', r_glob)
+            def r_archive():
+                p = os.path.join(d, 'arch' + ext)
+                fts.write(p, archive='zip', **kw)
+                return read_fts(p + '.zip', fmt, **rkw)
+            rd('write + read: archive=zip', r_archive)
+        finally:
+            shutil.rmtree(d, ignore_errors=True)
+        for name, got in results.items():
+            n += 1
+            exp = base if name.startswith('write:') else want
+            if got != exp:
+                yield {'case': dict(case, transport=name), 'impl': got if isinstance(got, str) else repr(got)[:300],
+                       'spec': 'transport "%s" gives %s, the string transport %s' % (name, (repr(got)[:120]), repr(exp)[:120]), 'noshrink': True}
+    cov['transport_comparisons'] = n
+
+
 def extra_checks(rng, tier, cov):
-    """error paths of LocationTuple / Feature construction (no model needed)"""
+    """error paths of LocationTuple / Feature construction (no model needed); transports of feature files"""
+    for v in _transport_checks(rng, tier, cov):
+        yield v
     from sugar.core.fts import LocationTuple, Location, Feature
     tests = [('LocationTuple()', lambda: LocationTuple(), ValueError),
              ('LocationTuple([])', lambda: LocationTuple([]), ValueError),
@@ -1906,6 +2029,9 @@ def python_snippet(case):
         return ("import sys; sys.path.insert(0, '/verif/tools')\nfrom props.c02 import impl\ncase = %r\nfor part in impl(case): print(part)" % (case,))
     if case['_k'] == 'ctor':
         return 'from sugar.core.fts import LocationTuple, Location, Feature; ' + case['call']
+    if case['_k'] == 'transport':
+        return ("import sys; sys.path.insert(0, '/verif/tools')\nfrom props.c02 import build_fts\nfts = build_fts(%r)\n"
+                "print(repr(fts.tofmtstr(%r, **%r)))  # compare with the transport %r" % (case['fts'], case['fmt'], case['kw'], case.get('transport')))
     if case['_k'] == 'opt':
         return ("import sys; sys.path.insert(0, '/verif/tools')\nfrom props.c02 import impl\ncase = %r\nfor part in impl(case): print(part)" % (case,))
     if case['_k'] == 'hist':
@@ -1982,8 +2108,9 @@ LEVEL_NOTE = ('Proved (51 theorems, all closed under the global context): unquot
               '(ID, type, seqid) are one feature to the reader (C02_adjacent_same_id_refuted). Per-line source (F38) is inside the domain: '
               'C02_loc_source_kept. Only tested, not proved: split features without ID (the writer invents distinct IDs); default_ftype beyond its '
               'role in filt; file order of the lines of a split feature (beyond the ordering theorems); '
-              'state independence (histories); transports (file names, handles), format detection by content (C03 has the theorems) and '
-              'meta._fmt; everything pandas does beyond the unquoted cell grid (quoting of '
+              'state independence (histories); every transport (file name, Path, text handle, handle / stream at an offset, BytesIO, gzip, '
+              'archive=, a glob with one match, Feature.write, the write_fts function: relational check against the plain string transport '
+              'on every run), format detection by content (C03 has the theorems) and meta._fmt; everything pandas does beyond the unquoted cell grid (quoting of '
               'cells that contain the separator / quotes / line breaks - sugar has no code of its own for it -, dtype inference, NA words: '
               'such cells are outside the model\'s domain flag). '
               'Statement coverage of the modelled functions in the quick tier: 100 % except sugar/_io/tab/xsv.py lines 86-87 and 95-96 '
